@@ -61,6 +61,17 @@ Theorem C06_folded_value_is_the_value : forall rho e q, cfold e = Some q -> eval
 Proof. exact cfold_sound. Qed.
 Print Assumptions C06_folded_value_is_the_value.
 
+(* a port whose declared size is a declared PARAMETER of the routine (input_params: [N], port size: N) yields the constraint
+   `#port = N`: the incoming size is compared with the parameter's value (finding F25: it used to define N instead, the
+   parameter then overrode that definition, and nothing was ever compared) *)
+Theorem C06_port_sized_by_a_parameter_is_checked_against_it : forall r r',
+  introduce_port_variables_node r = Ok r' ->
+  forall p s, In p (rports r) -> p_dir p <> DOut -> p_size p = ESym s -> s <> hash_name (p_name p) ->
+              mem s (rparams r) = true ->
+              In (mk_constraint (ESym (hash_name (p_name p))) (ESym s)) (rconstraints r').
+Proof. exact ipv_parameter_sized_port. Qed.
+Print Assumptions C06_port_sized_by_a_parameter_is_checked_against_it.
+
 (* non-vacuity: a symbolic consistent pair, a symbolic contradiction, an undecided pair *)
 Example C06_nonvacuous :
   let N := ESym "N" in
